@@ -205,12 +205,14 @@ class Injector:
         self.excluded += len(gaps) - len(usable) if not self.allow_attrpath else 0
         if not usable:
             return gaps, []
+        if mode is None and len(usable) <= 8 and r.random() < 0.4:
+            mode = "all"  # small programs: trivia in every gap at once (neighbouring constructs interact)
         if mode is None:
             x = r.random()
-            mode = "one" if x < 0.55 else "few" if x < 0.85 else "many" if x < 0.95 else "all"
+            mode = "one" if x < 0.5 else "adjacent" if x < 0.62 else "few" if x < 0.85 else "many" if x < 0.95 else "all"
         if mode == "one":
             k = 1
-        elif mode == "few":
+        elif mode in ("few", "adjacent"):
             k = r.randint(2, 3)
         elif mode == "many":
             k = max(1, len(usable) // 3)
@@ -222,7 +224,12 @@ class Injector:
         for g in usable:
             by_label.setdefault(g.label, []).append(g)
         chosen = []
-        if k >= len(usable):
+        if mode == "adjacent":
+            # two or three neighbouring gaps (both sides of one operator, keyword or delimiter)
+            start = r.choice(usable)
+            near = [g for g in usable if 0 <= g.index - start.index <= r.choice([1, 1, 2])]
+            chosen = near
+        elif k >= len(usable):
             chosen = list(usable)
         else:
             labels = list(by_label)
